@@ -6,7 +6,8 @@
      accepted h tr        payloads of the adds to instance h that returned Added, in order
      replaces_b r h       KEEP_LAST d and exactly d KAlive samples of instance h are stored
      place q t smp l      l with smp appended (BY_RECEPTION) / inserted by timestamp (BY_SOURCE)
-     lim_ok lim n         n <= lim, or lim unlimited;  lastn n l  the last n elements of l *)
+     lim_ok lim n         n <= lim, or lim unlimited;  lastn n l  the last n elements of l
+     model_case q ops     the correspondence case (outputs, final state) the model produces *)
 From DustDDS Require Import Base.Machine Cache.ReaderModel Cache.ReaderCorr Cache.LimitsDefs Cache.C18Proofs.
 Open Scope Z_scope.
 
@@ -91,6 +92,16 @@ Theorem C18_keep_all_keeps :
        map s_data (filter (of_inst h) (r_samples (run q ops))) = accepted h (run_trace (init_reader q) ops)).
 Proof. exact keep_all_keeps. Qed.
 
+(* the link to the correspondence run: the oracle C18_oracle_ok (ReaderCorr.v), which ./check
+   applies to the REAL reader's outputs, accepts whatever the model produces, for every QoS
+   with depth >= 1 and every history — so an oracle failure on the implementation is always
+   also a model disagreement or a property violation, never an artefact of the oracle *)
+Theorem C18_oracle_holds_on_model :
+  forall (q : qos) (ops : list op),
+    match q_depth q with Some d => 1 <= d | None => True end ->
+    C18_oracle_ok (model_case q ops) = true.
+Proof. exact oracle_holds_on_model. Qed.
+
 (* ---- non-vacuity ---- *)
 Definition m_all : masks := mkM true true true true true true true.
 (* KEEP_LAST 2 with max_samples_per_instance = 2 = depth and max_samples 4: five samples for
@@ -135,3 +146,4 @@ Print Assumptions C18_rejected_for_mspi_iff.
 Print Assumptions C18_rejected_for_mspi_needs_non_alive.
 Print Assumptions C18_keep_all_add_keeps.
 Print Assumptions C18_keep_all_keeps.
+Print Assumptions C18_oracle_holds_on_model.
